@@ -100,6 +100,12 @@ func sweepInputs(n *Node) []sweepInput {
 		if lp != my {
 			out = append(out, sweepInput{class: "proposal-for-lower-view", p: mk(dbft.PrepareRequestType, h, v-1, lp, &prepReq{ts: 7, nonce: 9, txs: []H{101}})})
 		}
+		// ... and of every other lower view from that view's own primary (views v and v-N share their speaker)
+		for lv := int(v) - 2; lv >= 0; lv-- {
+			if lq := primaryAt(h, byte(lv), nv); lq != my {
+				out = append(out, sweepInput{class: "proposal-for-lower-view", p: mk(dbft.PrepareRequestType, h, byte(lv), lq, &prepReq{ts: 7, nonce: 9, txs: []H{101}})})
+			}
+		}
 		for _, i := range others {
 			if i != lp {
 				out = append(out, sweepInput{class: "response-for-lower-view", p: mk(dbft.PrepareResponseType, h, v-1, i, &prepResp{H(0x77)})})
